@@ -6,7 +6,7 @@ import contracts.chunk as CH
 import contracts.general as G
 import contracts.standins_chunk as B
 
-PROVED = [CH.split_array, CH.chunk_split, CH.chunk_init_rows, CH.chunk_init_none, CH.chunk_init_other, G.diff, CH.concatenate2]
+PROVED = [CH.split_array, CH.chunk_split, CH.chunk_init_rows, CH.chunk_init_none, CH.chunk_init_other, G.diff, CH.concatenate2, CH.merge2]
 
 PROPERTY = Property(
     "C07", "proof",
